@@ -390,14 +390,18 @@ Viol(pre, c, r, h) ==
   \cup (IF \E x \in NewSlots(pre, post) : ~EomSquareOK(post.ch[x[1]], post.ch[x[1]].sl[x[2]])
         THEN {"C15.EomSquare"} ELSE {})
   \cup (IF cpd /\ ok /\ i # 0 /\ c.op \in {"eom_add", "eom_off", "eom_on", "eom_mod"}
-           /\ LET e == ExpectedDriftShift(pre, post, c, i)
-                  tgs == IF c.op = "eom_add" THEN lastTg ELSE LastOf(post.ch[i].sl).tg
-                  extra == IF c.op = "eom_add" THEN PMod(c.pps) ELSE 0
-              IN \/ \E q \in 1..NQ(pre) :
-                      ~PhEq(RefLast(post, bi, q),
-                            PMod(RefLast(pre, bi, q) + (IF HasBit(tgs, q) THEN e + extra ELSE 0)))
-                 \/ (c.op = "eom_add"
-                     /\ ~(\E x \in RefPhases(pre, bi, lastTg) : PhEq(new.ph, PMod(PMod(c.ph) + x + e))))
-        THEN {"C15.DriftCorrection"} ELSE {})
+        THEN LET e == ExpectedDriftShift(pre, post, c, i)
+                 tgs == IF c.op = "eom_add" THEN lastTg ELSE LastOf(post.ch[i].sl).tg
+                 extra == IF c.op = "eom_add" THEN PMod(c.pps) ELSE 0
+                 \* the reference of every atom = previous reference + post-phase-shift + drift correction
+                 refBad == \E q \in 1..NQ(pre) :
+                             ~PhEq(RefLast(post, bi, q),
+                                   PMod(RefLast(pre, bi, q) + (IF HasBit(tgs, q) THEN e + extra ELSE 0)))
+                 phBad == c.op = "eom_add"
+                          /\ ~(\E x \in RefPhases(pre, bi, lastTg) : PhEq(new.ph, PMod(PMod(c.ph) + x + e)))
+             IN (IF refBad \/ phBad THEN {"C15.DriftCorrection"} ELSE {})
+                \cup (IF refBad THEN {"C07.Additive"} ELSE {})
+                \cup (IF phBad THEN {"C07.PhaseIsProgPlusRef"} ELSE {})
+        ELSE {})
 
 =============================================================================
